@@ -4,19 +4,49 @@ Require Import Verif.IpcLifeModel.
 Import ListNotations.
 Open Scope Z_scope.
 
-(* errors about the service object are tracked by the second invariant (IpcLifeProofs3); here they are let through *)
-Definition svc_err (e : err) : Prop := e = ServiceUseAfterFree \/ e = ServiceRefUnderflow.
+(* [safe P r]: the run did not end in an error state (about a connection OR about the service object) and P holds *)
 Definition safe (P : world -> Z -> Prop) (r : R) : Prop :=
-  match r with Ok w z => P w z | Fail e _ => svc_err e end.
+  match r with Ok w z => P w z | Fail e _ => False end.
 
 Lemma safe_bind : forall P r f, safe (fun w z => safe P (f w z)) r -> safe P (bind r f).
 Proof. intros P [w z|e w] f; simpl; auto. Qed.
 Lemma safe_mono : forall (P Q : world -> Z -> Prop) r, (forall w z, P w z -> Q w z) -> safe P r -> safe Q r.
 Proof. intros P Q [w z|e w]; simpl; auto. Qed.
-Lemma safe_chks : forall P w k, safe P k -> safe P (chks w k).
-Proof. intros; unfold chks; destruct (s_alloc w); simpl; auto. left; reflexivity. Qed.
+Lemma safe_chks : forall P w k, s_alloc w = true -> safe P k -> safe P (chks w k).
+Proof. intros; unfold chks; rewrite H; auto. Qed.
 Lemma safe_chk : forall P c w k, c_alloc (conns w c) = true -> safe P k -> safe P (chk c w k).
 Proof. intros; unfold chk; rewrite H; auto. Qed.
+
+Lemma updf_same : forall A (f : nat -> A) c x, updf f c x c = x.
+Proof. intros; unfold updf; rewrite Nat.eqb_refl; auto. Qed.
+Lemma updf_other : forall A (f : nat -> A) c x i, i <> c -> updf f c x i = f i.
+Proof. intros; unfold updf; destruct (Nat.eqb_spec i c); congruence. Qed.
+
+(* number of allocated connection objects among the ids handed out so far *)
+Fixpoint nalloc_upto (f : nat -> conn) (n : nat) : Z :=
+  match n with O => 0 | S m => nalloc_upto f m + (if c_alloc (f m) then 1 else 0) end.
+Definition nalloc (w : world) : Z := nalloc_upto (conns w) (next w).
+
+Lemma nalloc_upto_ext : forall f g n, (forall i, (i < n)%nat -> c_alloc (f i) = c_alloc (g i)) ->
+  nalloc_upto f n = nalloc_upto g n.
+Proof. induction n; simpl; intros; auto. rewrite IHn, H; auto. Qed.
+Lemma nalloc_upto_nonneg : forall f n, 0 <= nalloc_upto f n.
+Proof. induction n; simpl; try lia. destruct (c_alloc (f n)); lia. Qed.
+Lemma nalloc_upto_upd_out : forall f c x n, (n <= c)%nat -> nalloc_upto (updf f c x) n = nalloc_upto f n.
+Proof. intros. apply nalloc_upto_ext. intros i Hi. rewrite updf_other; auto. lia. Qed.
+Lemma nalloc_upto_upd_in : forall f c x n, (c < n)%nat ->
+  nalloc_upto (updf f c x) n = nalloc_upto f n - (if c_alloc (f c) then 1 else 0) + (if c_alloc x then 1 else 0).
+Proof.
+  induction n; intros; [lia|]. simpl. destruct (Nat.eq_dec c n).
+  - subst. rewrite updf_same. rewrite nalloc_upto_upd_out by lia. lia.
+  - rewrite updf_other by auto. rewrite IHn by lia. lia.
+Qed.
+Lemma nalloc_upto_pos : forall f c n, (c < n)%nat -> c_alloc (f c) = true -> 1 <= nalloc_upto f n.
+Proof.
+  induction n; intros; [lia|]. simpl. destruct (Nat.eq_dec c n).
+  - subst. rewrite H0. pose proof (nalloc_upto_nonneg f n). lia.
+  - assert (1 <= nalloc_upto f n) by (apply IHn; auto; lia). destruct (c_alloc (f n)); lia.
+Qed.
 
 Definition init_of (s : cstate) : Z := match s with ACTIVE | ESTABLISHED => 1 | _ => 0 end.
 Definition jw (j : Z) : Z := Z.min j 1.
@@ -35,10 +65,11 @@ Definition CI (h j : Z) (d : bool) (nj : Z) (inl : bool) (x : conn) : Prop :=
   match c_ph x with
   | PNone => c_alloc x = false /\ c_uref x = 0 /\ h = 0 /\ j = 0 /\ nj = 0 /\ inl = false /\ c_reg x = false
   | P0 => False
-  | PDead => c_uref x = 0 /\ h = 0 /\ j = 0 /\ nj = 0 /\ inl = false /\ c_reg x = false /\ (c_alloc x = true -> c_rc x = 0)
+  | PDead => c_uref x = 0 /\ h = 0 /\ j = 0 /\ nj = 0 /\ inl = false /\ c_reg x = false /\ (c_alloc x = true -> c_rc x = 0) /\
+             (d = false -> c_alloc x = false)
   | p => c_alloc x = true /\ c_rc x = init_of (c_st x) + c_uref x + h + jw j + nj /\ 1 <= c_rc x /\
          (c_reg x = true -> c_st x = ACTIVE \/ c_st x = ESTABLISHED) /\
-         (j = 3 -> p = PAcc /\ c_st x = INACTIVE /\ inl = false /\ c_reg x = false) /\
+         (j = 3 -> p = PAcc /\ c_st x = INACTIVE /\ c_reg x = false) /\
          (j = 4 -> p = PCre /\ (c_st x = ACTIVE \/ c_st x = INACTIVE)) /\
          match c_st x with
          | INACTIVE => (p = PAcc \/ p = PCre) /\ (j = 0 \/ j = 3 \/ j = 4) /\ nj = 0 /\ c_notified x = false
@@ -52,10 +83,33 @@ Definition CI (h j : Z) (d : bool) (nj : Z) (inl : bool) (x : conn) : Prop :=
 Fixpoint desc (l : list nat) : Prop :=
   match l with [] => True | a :: t => (forall b, In b t -> (b < a)%nat) /\ desc t end.
 
-Definition GI (H J : nat -> Z) (D : nat -> bool) (w : world) : Prop :=
+(* the list: strictly descending ids (list_add puts the newest connection at the head); while
+   handle_new_connection has not linked its connection yet (j = 3) everything on the list is older *)
+Definition LI (J : nat -> Z) (l : list nat) : Prop :=
+  desc l /\ forall c b, J c = 3 -> In b l -> (b < c)%nat.
+
+(* context of the frames, third component: which connections are inside their destroyed callback, and whether a
+   qb_ipcs_destroy frame (which still holds the creator's reference) is running *)
+Record dctx := mkD { dying :> nat -> bool; dframe : bool }.
+
+(* the service object: one reference for the creator (until qb_ipcs_destroy drops it) and one per allocated
+   connection; freed exactly when none of them is left *)
+Definition SI (df : bool) (w : world) : Prop :=
+  (s_alloc w = true -> 1 <= s_rc w /\ (if s_creator w then 1 else 0) + nalloc w <= s_rc w) /\
+  (s_alloc w = false -> s_creator w = false /\ nalloc w = 0) /\
+  (destroy_called w = false -> s_creator w = true) /\
+  (df = true -> s_creator w = true /\ destroy_called w = true).
+
+Definition GI (H J : nat -> Z) (D : dctx) (w : world) : Prop :=
   (forall c, CI (H c) (J c) (D c) (cnt c (jobs w)) (mem_id c (s_list w)) (conns w c)) /\
-  desc (s_list w) /\
-  (forall c, (next w <= c)%nat -> c_ph (conns w c) = PNone).
+  LI J (s_list w) /\
+  (forall c, (next w <= c)%nat -> c_ph (conns w c) = PNone) /\
+  SI (dframe D) w.
+
+(* two worlds that differ only in fields the invariant does not look at *)
+Definition same_frame (w' w : world) : Prop :=
+  (forall c, conns w' c = conns w c) /\ jobs w' = jobs w /\ s_list w' = s_list w /\ next w' = next w /\
+  s_alloc w' = s_alloc w /\ s_rc w' = s_rc w /\ s_creator w' = s_creator w /\ destroy_called w' = destroy_called w.
 
 Definition addf (f : nat -> Z) (c : nat) (d : Z) : nat -> Z := fun i => if Nat.eqb i c then f i + d else f i.
 Definition setf (f : nat -> Z) (c : nat) (v : Z) : nat -> Z := fun i => if Nat.eqb i c then v else f i.
@@ -77,43 +131,58 @@ Proof. unfold CI; intros; intuition. Qed.
 Lemma CI_live_d : forall h j d nj inl x, CI h j d nj inl x -> live x -> d = false.
 Proof. unfold CI, live; intros. destruct d; auto. destruct H as (_ & _ & _ & _ & _ & A & _). destruct (A eq_refl) as [E _]. rewrite E in H0. tauto. Qed.
 
-(* GI only looks at conns, jobs, s_list, next *)
-Lemma GI_ext : forall H J D w w',
-  (forall c, conns w' c = conns w c) -> jobs w' = jobs w -> s_list w' = s_list w -> next w' = next w ->
-  GI H J D w -> GI H J D w'.
+Lemma SI_frame : forall df w w',
+  (forall c, c_alloc (conns w' c) = c_alloc (conns w c)) -> next w' = next w ->
+  s_alloc w' = s_alloc w -> s_rc w' = s_rc w -> s_creator w' = s_creator w -> destroy_called w' = destroy_called w ->
+  SI df w -> SI df w'.
 Proof.
-  unfold GI; intros H J D w w' E1 E2 E3 E4 (A & B & C).
-  rewrite E2, E3, E4. split; [|split]; auto; intros; rewrite E1; auto.
+  unfold SI, nalloc; intros df w w' E1 E2 E3 E4 E5 E6 S.
+  rewrite E2, E3, E4, E5, E6. rewrite (nalloc_upto_ext (conns w') (conns w)); auto.
 Qed.
 
-Lemma updf_same : forall A (f : nat -> A) c x, updf f c x c = x.
-Proof. intros; unfold updf; rewrite Nat.eqb_refl; auto. Qed.
-Lemma updf_other : forall A (f : nat -> A) c x i, i <> c -> updf f c x i = f i.
-Proof. intros; unfold updf; destruct (Nat.eqb_spec i c); congruence. Qed.
+(* GI only looks at conns, jobs, s_list, next and the service fields *)
+Lemma GI_ext : forall H J D w w', same_frame w' w -> GI H J D w -> GI H J D w'.
+Proof.
+  unfold GI, same_frame; intros H J D w w' (E1 & E2 & E3 & E4 & E5 & E6 & E7 & E8) (A & B & C & S).
+  rewrite E2, E3, E4. split; [|split; [|split]].
+  - intros; rewrite E1; auto.
+  - auto.
+  - intros; rewrite E1; auto.
+  - eapply SI_frame; [| | | | | | exact S]; auto. intros; rewrite E1; auto.
+Qed.
 
-(* replacing one connection record (jobs, list, next unchanged) *)
-Lemma GI_put : forall H J D H' J' D' w c x',
+(* replacing one connection record (jobs, list, next, allocation status unchanged) *)
+Lemma GI_put : forall H J (D : dctx) H' J' (D' : dctx) w c x',
   GI H J D w ->
   (forall i, i <> c -> H' i = H i /\ J' i = J i /\ D' i = D i) ->
   CI (H' c) (J' c) (D' c) (cnt c (jobs w)) (mem_id c (s_list w)) x' ->
   (c_ph x' = PNone <-> c_ph (conns w c) = PNone) ->
+  (J' c = 3 -> J c = 3) ->
+  c_alloc x' = c_alloc (conns w c) -> dframe D' = dframe D ->
   GI H' J' D' (put c x' w).
 Proof.
-  unfold GI; intros H J D H' J' D' w c x' (A & B & C) E Hc Hp; simpl.
-  split; [|split]; auto.
+  unfold GI; intros H J D H' J' D' w c x' (A & B & C & S) E Hc Hp Hj3 Hal Hdf; simpl.
+  split; [|split; [|split]]; auto.
   - intros i. unfold updf. destruct (Nat.eqb_spec i c).
     + subst; auto.
     + destruct (E i n) as (-> & -> & ->). apply A.
+  - destruct B as [B1 B2]. split; auto. intros c0 b E0 Hb. destruct (Nat.eq_dec c0 c).
+    + subst. apply (B2 c b); auto.
+    + destruct (E c0 n) as (_ & E1 & _). rewrite E1 in E0. apply (B2 c0 b); auto.
   - intros i Hi. unfold updf. destruct (Nat.eqb_spec i c).
     + subst. apply Hp. apply C; auto.
     + apply C; auto.
+  - rewrite Hdf. eapply SI_frame; [| | | | | | exact S]; try reflexivity.
+    intros i. simpl. unfold updf. destruct (Nat.eqb_spec i c); subst; auto.
 Qed.
 (* the context only matters pointwise *)
-Lemma GI_ctx : forall H J D H' J' D' w,
-  (forall i, H' i = H i /\ J' i = J i /\ D' i = D i) -> GI H J D w -> GI H' J' D' w.
+Lemma GI_ctx : forall H J (D : dctx) H' J' (D' : dctx) w,
+  (forall i, H' i = H i /\ J' i = J i /\ D' i = D i) -> dframe D' = dframe D -> GI H J D w -> GI H' J' D' w.
 Proof.
-  unfold GI; intros H J D H' J' D' w E (A & B & C). split; [|split]; auto.
-  intros c. destruct (E c) as (-> & -> & ->). apply A.
+  unfold GI; intros H J D H' J' D' w E Ed (A & B & C & S). split; [|split; [|split]]; auto.
+  - intros c. destruct (E c) as (-> & -> & ->). apply A.
+  - destruct B as [B1 B2]. split; auto. intros c b E0 Hb. destruct (E c) as (_ & E1 & _). rewrite E1 in E0. eauto.
+  - rewrite Ed; auto.
 Qed.
 
 Lemma addf_same : forall f c d, addf f c d c = f c + d.
@@ -161,11 +230,15 @@ Proof. induction l1; simpl; intros; auto. rewrite IHl1; lia. Qed.
 Lemma cnt_nonneg : forall c l, 0 <= cnt c l.
 Proof. induction l; simpl; try lia. destruct (Nat.eqb a c); lia. Qed.
 
-Definition setb (f : nat -> bool) (c : nat) (v : bool) : nat -> bool := fun i => if Nat.eqb i c then v else f i.
-Lemma setb_same : forall f c d, setb f c d c = d.
-Proof. intros; unfold setb; rewrite Nat.eqb_refl; auto. Qed.
-Lemma setb_other : forall f c d i, i <> c -> setb f c d i = f i.
-Proof. intros; unfold setb; destruct (Nat.eqb_spec i c); congruence. Qed.
+Definition setb (D : dctx) (c : nat) (v : bool) : dctx :=
+  mkD (fun i => if Nat.eqb i c then v else D i) (dframe D).
+Lemma setb_same : forall (D : dctx) c d, setb D c d c = d.
+Proof. intros; unfold setb; simpl; rewrite Nat.eqb_refl; auto. Qed.
+Lemma setb_other : forall (D : dctx) c d i, i <> c -> setb D c d i = D i.
+Proof. intros; unfold setb; simpl; destruct (Nat.eqb_spec i c); congruence. Qed.
+Lemma setb_frame : forall (D : dctx) c d, dframe (setb D c d) = dframe D.
+Proof. reflexivity. Qed.
+Definition setdf (D : dctx) (v : bool) : dctx := mkD (dying D) v.
 
 (* what the library may assume of the application's callbacks (proved of [invoke] in IpcLifeProofs2) *)
 Definition cb_ok (cb : kind -> nat -> world -> R) : Prop :=
@@ -175,3 +248,40 @@ Definition cb_ok (cb : kind -> nat -> world -> R) : Prop :=
     exists ret p', phase_step k ret (c_ph (conns w c)) = Some p' /\
       forall H J D, GI H J D (put c (w_ph p' (conns w c)) w) ->
         safe (fun w' r => r = ret /\ GI H J D w') (cb k c w).
+
+Lemma LI_remove : forall J c l, LI J l -> LI J (remove_id c l).
+Proof. intros J c l [A B]. split. apply desc_remove; auto. intros c0 b E Hb. apply (B c0 b); auto. eapply In_remove; eauto. Qed.
+Lemma LI_setf_in : forall J c v l, v <> 3 -> LI J l -> LI (setf J c v) l.
+Proof.
+  intros J c v l Hv [A B]. split; auto. intros c0 b E Hb. unfold setf in E.
+  destruct (Nat.eqb c0 c); [congruence | eauto].
+Qed.
+Lemma LI_setf_out : forall J c v l, J c <> 3 -> LI (setf J c v) l -> LI J l.
+Proof.
+  intros J c v l Hv [A B]. split; auto. intros c0 b E Hb. apply (B c0 b); auto.
+  unfold setf. destruct (Nat.eqb_spec c0 c); [subst; congruence | auto].
+Qed.
+
+(* ---- the service object is there while a connection or the creator references it *)
+Lemma GI_alloc_below : forall H J D w c, GI H J D w -> c_alloc (conns w c) = true -> (c < next w)%nat.
+Proof.
+  intros H J D w c (A & _ & C & _) Ha. destruct (Nat.lt_ge_cases c (next w)); auto.
+  specialize (C c H0). specialize (A c). unfold CI in A. rewrite C in A. intuition congruence.
+Qed.
+Lemma GI_svc_alive : forall H J D w c, GI H J D w -> c_alloc (conns w c) = true -> s_alloc w = true.
+Proof.
+  intros H J D w c G Ha. pose proof (GI_alloc_below _ _ _ _ _ G Ha) as Lt.
+  destruct G as (_ & _ & _ & S). destruct S as (_ & S2 & _).
+  destruct (s_alloc w) eqn:E; auto. destruct (S2 eq_refl) as [_ N].
+  unfold nalloc in N. pose proof (nalloc_upto_pos (conns w) c (next w) Lt Ha). lia.
+Qed.
+Lemma GI_svc_creator : forall H J D w, GI H J D w -> s_creator w = true -> s_alloc w = true.
+Proof.
+  intros H J D w (_ & _ & _ & S) Hc. destruct S as (_ & S2 & _).
+  destruct (s_alloc w) eqn:E; auto. destruct (S2 eq_refl) as [N _]. congruence.
+Qed.
+
+Ltac ext := intros; unfold put, updf, set_list, set_jobs, set_svc, set_slots, set_withdrawn, logit, set_log, set_behs, set_prio,
+              set_destroy_called, set_next, set_creator; simpl;
+            repeat match goal with |- context [Nat.eqb ?a ?b] => destruct (Nat.eqb_spec a b); subst end; try congruence; auto.
+Ltac frame := unfold same_frame; repeat split; try reflexivity; try solve [ext].
